@@ -42,6 +42,16 @@ Definition remove_slash (path qs : str) : option str :=
   then Some (sanitize_mw (with_qs (removelast path) qs))
   else None.
 
+(* RedirectCode = 0 (the default): the request is forwarded with the new path and request URI instead:
+   (path the router sees, Some new RequestURI | None when nothing changes) *)
+Definition add_slash_forward (path qs : str) : str * option str :=
+  if ends_with_slash path then (path, None)
+  else (path ++ ["/"], Some (with_qs (path ++ ["/"]) qs)).
+Definition remove_slash_forward (path qs : str) : str * option str :=
+  if Nat.ltb 1 (List.length path) && ends_with_slash path
+  then (removelast path, Some (with_qs (removelast path) qs))
+  else (path, None).
+
 (* StaticDirectoryHandler: a directory requested without trailing slash *)
 Definition static_dir (path : str) (is_dir : bool) : option str :=
   if is_dir && negb (ends_with_slash path) && negb (match path with [] => true | _ => false end)
